@@ -34,6 +34,18 @@ func (c *checker) replay() {
 			if idx >= 0 && idx != len(progs)-1 {
 				detail = append(detail, fmt.Sprintf("(differs already at history program %d: %s)", idx, progs[idx]))
 			}
+		case "native":
+			found := false
+			for _, cs := range mustCases() {
+				if cs.Spec.Native+"."+cs.Spec.Method == rec.Prog && cs.Variant == rec.Family && cs.Kind == rec.Pos {
+					found = true
+					what, detail, err = (&nrun{c: c}).run(cs)
+				}
+			}
+			if !found {
+				fmt.Println("replay: unknown native case", rec.Prog, rec.Family, rec.Pos)
+				os.Exit(3)
+			}
 		case "multi":
 			var blocks [][]string
 			for _, b := range append(append([]string{}, rec.History...), rec.Prog) {
@@ -92,3 +104,5 @@ func (c *checker) replay() {
 	}
 	c.r.Finish(map[string]any{"states": 1, "transitions": execs, "traces_validated_against_impl": execs}, nil)
 }
+
+func mustCases() []ncase { cs, _ := nativeCases(); return cs }
